@@ -177,7 +177,11 @@ func genCKKS(t *rapid.T) CKKSCase {
 		npoly = rapid.IntRange(1, 3).Draw(t, "npoly")
 		c.MixedParity = npoly >= 2 && rapid.IntRange(0, 5).Draw(t, "mixedParity") == 0
 	}
-	complexCoeffs := !c.Cheb && !c.Params.CI && rapid.IntRange(0, 2).Draw(t, "complexCoeffs") == 0
+	// coefficient field: real, purely imaginary or mixed complex, in both bases (the conjugate-invariant ring is real)
+	coeffKind := "real"
+	if !c.Params.CI {
+		coeffKind = []string{"real", "real", "mixed", "imag", "mixed", "real"}[rapid.IntRange(0, 5).Draw(t, "coeffKind")]
+	}
 	// sum |c_k| <= 8 keeps |p(x)| * scale far below the level-0 modulus
 	amp := math.Min(1, 8/float64(c.Degree+1))
 	for i := 0; i < npoly; i++ {
@@ -194,8 +198,11 @@ func genCKKS(t *rapid.T) CKKSCase {
 			// multiples of 2^-10 (rapid's float generator is heavily biased towards tiny magnitudes)
 			re := float64(rapid.IntRange(-1024, 1024).Draw(t, fmt.Sprintf("c%d_%d", i, k))) / 1024 * amp
 			im := 0.0
-			if complexCoeffs {
+			switch coeffKind {
+			case "mixed":
 				im = float64(rapid.IntRange(-1024, 1024).Draw(t, fmt.Sprintf("ci%d_%d", i, k))) / 1024 * amp
+			case "imag":
+				re, im = 0, re
 			}
 			if sh.keepCoeff(k, c.Degree, sel.Uint64()) {
 				cs[k] = [2]float64{re, im}
@@ -489,6 +496,15 @@ func runCKKS(c CKKSCase, rec *h.Rec) error {
 	rec.Classf("depth=%d", depth)
 	rec.Classf("logN=%d", c.Params.LogN)
 	rec.Classf("basis=%v", map[bool]string{false: "monomial", true: "chebyshev"}[c.Cheb])
+	cplx := false
+	for _, cs := range c.Coeffs {
+		for _, v := range cs {
+			cplx = cplx || v[1] != 0
+		}
+	}
+	if cplx {
+		rec.Classf("coeffs=complex:%v", map[bool]string{false: "monomial", true: "chebyshev"}[c.Cheb])
+	}
 	rec.Classf("prec=%d", 64*lcpr)
 	if c.Params.CI {
 		rec.Class("ring=ci")
@@ -652,7 +668,7 @@ func runCKKS(c CKKSCase, rec *h.Rec) error {
 		for i, s := range c.Shapes {
 			shapes[i] = s.class()
 		}
-		rec.NonTrivial(fmt.Sprintf("ckks|ci=%v|prec=%d|cheb=%v|%s|deg=%d|lvl-min=%d|n=%d|%s|pb=%v%v|lazy=%v|scales=%v,%v,%v|%s", c.Params.CI, 64*lcpr, c.Cheb, c.Kind, c.Degree, c.Level-minLevel, npoly,
+		rec.NonTrivial(fmt.Sprintf("ckks|cplx=%v|ci=%v|prec=%d|cheb=%v|%s|deg=%d|lvl-min=%d|n=%d|%s|pb=%v%v|lazy=%v|scales=%v,%v,%v|%s", cplx, c.Params.CI, 64*lcpr, c.Cheb, c.Kind, c.Degree, c.Level-minLevel, npoly,
 			strings.Join(shapes, ","), c.FromPB, len(c.PBPowers), c.Lazy, c.InScaleRel != 1, c.TargetRel != 1, c.TargetIsIn, c.ValPattern))
 	}
 	return nil
